@@ -142,11 +142,18 @@ func (r *c20Reader) ReadPacketData() ([]byte, *gopacket.CaptureInfo, error) {
 	if k < len(r.script) {
 		switch r.script[k] {
 		case oFrame, oProcErr:
-			b := make([]byte, 6)
+			v := 0
+			if k < len(r.variant) {
+				v = r.variant[k]
+			}
+			// frames of different lengths, every byte determined by the frame's number: a processor
+			// must get exactly the bytes that were read, no more and no fewer
+			b := make([]byte, 6+(v*7)%40)
 			binary.BigEndian.PutUint32(b, uint32(k))
 			b[4] = r.script[k]
-			if k < len(r.variant) {
-				b[5] = byte(r.variant[k])
+			b[5] = byte(v)
+			for i := 6; i < len(b); i++ {
+				b[i] = byte(k + i)
 			}
 			return b, ci, nil
 		default:
@@ -160,11 +167,22 @@ func (r *c20Reader) ReadPacketData() ([]byte, *gopacket.CaptureInfo, error) {
 }
 
 type c20Proc struct {
-	seen []int
+	seen    []int
+	damaged []string
 }
 
 func (p *c20Proc) ProcessPacketData(data []byte, _ *gopacket.CaptureInfo) error {
 	id := int(binary.BigEndian.Uint32(data))
+	if want := 6 + (int(data[5])*7)%40; len(data) != want {
+		p.damaged = append(p.damaged, fmt.Sprintf("frame %d: read %d bytes, the processor got %d", id, want, len(data)))
+	} else {
+		for i := 6; i < len(data); i++ {
+			if data[i] != byte(id+i) {
+				p.damaged = append(p.damaged, fmt.Sprintf("frame %d: byte %d changed on the way to the processor", id, i))
+				break
+			}
+		}
+	}
 	p.seen = append(p.seen, id)
 	if data[4] == oProcErr {
 		return c20ProcErr(id, int(data[5]))
@@ -458,6 +476,9 @@ func runC20(t *testing.T, c simrt.Chooser, o Opts) *Out {
 	}
 	if res.End == simrt.EndBusyLoop {
 		out.violate("C20.busyloop", "busy", "more than 20000 scheduling steps without virtual time advancing")
+	}
+	if len(proc.damaged) > 0 {
+		out.violate("C20.frames", "bytes", "%v (script %q)", firstN(proc.damaged, 3), sc.Script)
 	}
 	// frames: every frame returned by the reader is processed exactly once, in order
 	if !eqInts(proc.seen, frames) {
